@@ -449,6 +449,50 @@ fn check_lambda(ctx: &Ctx, name: &str, lambda: f64, n1_log2: u32, n: usize, deta
     Ok(())
 }
 
+/// The 3-state chain assumes that a rejected proposal leaves no trace.  Scripts with k consecutive rejected proposals
+/// (x = 0.9, y = 0.095: every acceptance test fails for rates from 2 to 300, which is verified on the real sampler with
+/// k = 1 by the number of words it consumes) followed by one accepted proposal x = 2^-10: the sampler must return that
+/// value and consume exactly 2k + 2 words, for k up to 5000 (a cap on the number of proposals, a counter, a fallback
+/// after n attempts show here).
+fn long_rejection_runs() -> (u64, Option<(f64, String)>) {
+    let top = (1u64 << 52) - 1;
+    let wx = word_for_k((0.9 * crate::script::TWO52) as u64);
+    let wy = word_for_k((0.19 * crate::script::TWO52) as u64);
+    let acc_k = 1u64 << 42; // 2^-10
+    let acc = acc_k as f64 / crate::script::TWO52;
+    let mut n = 0u64;
+    for &lambda in &[2.0f64, 5., 10., 25., 60., 300.] {
+        let sampler = ExpRestricted01::new(lambda);
+        let run = |k: usize| {
+            let mut words = vec![word_for_k(top)];
+            for _ in 0..k {
+                words.push(wx);
+                words.push(wy);
+            }
+            words.push(word_for_k(acc_k));
+            guarded_mut(|| {
+                let mut s = Script::new(&words);
+                let x = sampler.sample(&mut s);
+                (x, s.consumed(), s.overrun)
+            })
+        };
+        // premise: one rejected proposal is consumed as two words and the accepted one returns 2^-10
+        match run(1) {
+            Ok((x, 4, 0)) if x == acc => {}
+            _ => continue,
+        }
+        for &k in &[0usize, 2, 3, 31, 32, 33, 63, 64, 65, 100, 127, 128, 129, 255, 256, 257, 1000, 5000] {
+            n += 1;
+            match run(k) {
+                Ok((x, c, 0)) if x == acc && c == 2 * k + 2 => {}
+                Ok((x, c, o)) => return (n, Some((lambda, format!("lambda {}: after {} consecutive rejected proposals (x = 0.9, y = 0.095) and one accepted proposal x = 2^-10 the sampler returns {} after {} words ({} beyond the script); after one rejected proposal it returns 2^-10 after 4 words", lambda, k, x, c, o)))),
+                Err(p) => return (n, Some((lambda, format!("lambda {}: panic after {} rejected proposals: {}", lambda, k, p)))),
+            }
+        }
+    }
+    (n, None)
+}
+
 pub fn run(ctx: &Ctx) -> i32 {
     if let Err(e) = crate::script::selfcheck_uniform_mapping() {
         println!("ENGINE-ERROR C16 script self-check: {}", e);
@@ -462,6 +506,16 @@ pub fn run(ctx: &Ctx) -> i32 {
     for (name, lambda) in lambdas(!ctx.quick()) {
         if let Err(c) = check_lambda(ctx, &name, lambda, n1_log2, n, &mut details, &mut execs, &mut distinct) {
             return c;
+        }
+    }
+    {
+        let (nr, bad) = long_rejection_runs();
+        execs += nr;
+        if nr == 0 {
+            ctx.note("long rejection runs: the premise (x = 0.9, y = 0.095 is rejected) did not hold for any rate; nothing explored".to_string());
+        }
+        if let Some((l, w)) = bad {
+            ctx.violation("rejected-proposals-leave-a-trace", &w, json!({"kind": "rejection-run", "lambda": l}));
         }
     }
     // with a trace-level logger installed (log macros evaluate their arguments only then): structure-free scripts for a few rates
@@ -484,7 +538,7 @@ pub fn run(ctx: &Ctx) -> i32 {
         "exhaustive": true,
         "evaluations": execs,
         "distinct_nontrivial": distinct,
-        "rule": "every script over the grid is run on the real sampler: u1 on a 2^22 (thorough 2^24) midpoint grid; (u2,u3) behind the loop-forcing first word: u2 on 4N midpoints of [0,1) for lambda<=1, else on N midpoints of each of 2L geometric strata [0,2^-L),[2^-L,2^-(L-1)),..,[1/4,1/2) and their mirror images towards 1 (N = 4096 (16384), L=ceil(log2 lambda)+3; the loop reflects points, so both ends matter), each stratum weighted by its width; for every u2 the outcome as a function of u3 is probed at 258 points and every switch between neighbouring probes is located by bisection on the 52-bit generator value, so the measure of each outcome within a row is exact; a row's mass is shared among the quantile bins its x-interval overlaps; plus all 8^5 scripts over extreme words and the 81 generator values around the accept/loop boundary 1/c1; the 3-state chain first-try/loop/output is solved exactly, P(out<=t)=P1(<=t)+P(loop)*P2(<=t)/P2(accept), compared at the 64 quantiles of the target law; distinct = distinct first-try outputs",
+        "rule": "every script over the grid is run on the real sampler: u1 on a 2^22 (thorough 2^24) midpoint grid; (u2,u3) behind the loop-forcing first word: u2 on 4N midpoints of [0,1) for lambda<=1, else on N midpoints of each of 2L geometric strata [0,2^-L),[2^-L,2^-(L-1)),..,[1/4,1/2) and their mirror images towards 1 (N = 4096 (16384), L=ceil(log2 lambda)+3; the loop reflects points, so both ends matter), each stratum weighted by its width; for every u2 the outcome as a function of u3 is probed at 258 points and every switch between neighbouring probes is located by bisection on the 52-bit generator value, so the measure of each outcome within a row is exact; a row's mass is shared among the quantile bins its x-interval overlaps; plus scripts with 0..5000 consecutive rejected proposals before an accepted one for 6 rates from 2 to 300 (returned value and number of words consumed), all 8^5 scripts over extreme words and the 81 generator values around the accept/loop boundary 1/c1; the 3-state chain first-try/loop/output is solved exactly, P(out<=t)=P1(<=t)+P(loop)*P2(<=t)/P2(accept), compared at the 64 quantiles of the target law; distinct = distinct first-try outputs",
         "grid_n": n,
         "first_try_grid_log2": n1_log2,
         "cdf_tolerance": "5e-6 (thorough 2e-6): what is left is the midpoint rule across rows and the 2^-22 first-try grid; the largest error observed on the unchanged tree is 8e-7 for every rate from 1e-300 to 1e9 (see max_cdf_error per lambda)",
@@ -502,6 +556,13 @@ pub fn run(ctx: &Ctx) -> i32 {
 }
 
 pub fn replay(_ctx: &Ctx, case: &Value) -> Result<(bool, String), String> {
+    if case["kind"].as_str() == Some("rejection-run") {
+        let (_, bad) = long_rejection_runs();
+        return Ok(match bad {
+            Some((_, w)) => (true, w),
+            None => (false, "rejected proposals leave no trace".into()),
+        });
+    }
     if case["kind"].as_str() == Some("logging") {
         return Err("re-derived by running the check itself".into());
     }
